@@ -4,7 +4,7 @@
    scalar values; the lossy decoder (String::from_utf8_lossy) is the identity on them, always produces such a concatenation, and leaves a
    valid prefix untouched. *)
 From RBP Require Import Bytes Utf8.
-From Coq Require Import Lia ZArith Znumtheory.
+From Coq Require Import Lia ZArith.
 Ltac Zify.zify_post_hook ::= Z.div_mod_to_equations.
 Local Open Scope N_scope.
 
